@@ -436,11 +436,7 @@ theorem chain_converges (ps : List Party) (g0 : GState) (mp : Nat) (w : Ev) (T :
     have hch : ChainEv p.c.id p.c.g.admins (p.c.g.path ++ [w.cipher]) rest := by
       rw [ok.parent.admins, ok.parent.path]; exact ok.chain
     have hd := chain_run p.nx p.c w T p.l rest p.ls ok.fork ok.below hmin ok.first hcross hch ok.unseen ok.later
-    have hk : ∃ b sw, w.kind = .commit b sw := by
-      have hne : p.l ≠ [] := fun e => by have := ok.first.2 w hmin.1; rw [e] at this; cases this
-      obtain ⟨w', hw', hm', hd'⟩ := fork_level p.c T p.l p.nx ok.fork ok.first.1 hne
-      have : w = w' := isMin_unique hmin ⟨ok.first.1 w' hw', fun e he => hm' e (ok.first.2 e he)⟩
-      rw [this]; exact hd'.com.kind
+    have hk : ∃ b sw, w.kind = .commit b sw := atFork_kind ok.fork w hmin.1
     obtain ⟨b, sw, hk⟩ := hk
     constructor
     · show (run p.nx p.c (p.l ++ p.ls.flatten)).g.path = _
@@ -601,6 +597,61 @@ example : (run 0 b2 [[eA, eC, eA, eB], [hA, fA, fB, hA, fA], [gA, hA, gA]].flatt
     sibling B arrives), the child of A is not stale — it is applied, and the client is two epochs down the
     losing branch (see `depth2_rollback` for what happens next) -/
 example : (run 0 b2 [eA, hA]).g.path = [1, 7] := by decide
+
+/-- the hypotheses of a party whose schedule interleaves stale events (in the first level's list and in
+    the later ones), with event numbers different from those of the chain's events -/
+structure PartyOKS (g0 : GState) (mp : Nat) (w : Ev) (T : List Ev) (rest : List Level) (p : Party) : Prop where
+  fork : AtFork p.c T
+  below : Below p.c
+  parent : SameParent p.c.g g0
+  maxPast : p.c.maxPast = mp
+  first : ∀ e ∈ p.l, e ∈ T ∨ (StalePath g0.path T e ∧ ∀ a ∈ T ++ evs rest, e.n ≠ a.n)
+  cover : ∀ e ∈ T, e ∈ p.l
+  chain : ChainEv p.c.id g0.admins (g0.path ++ [w.cipher]) rest
+  unseen : ∀ e ∈ evs rest, getRec p.c e.n = none ∧ e.cipher ∉ p.c.g.consumed
+  later : LevelWiseS (T ++ evs rest) (g0.path ++ [w.cipher]) rest p.ls
+
+/-- **chain_converges_stale**: `chain_converges` for parties whose level lists interleave stale events -/
+theorem chain_converges_stale (ps : List Party) (g0 : GState) (mp : Nat) (w : Ev) (T : List Ev) (rest : List Level)
+    (hmin : IsMin w T) (hcross : ∀ e1 ∈ T, ∀ e2 ∈ evs rest, e1.n ≠ e2.n ∧ e1.cipher ≠ e2.cipher)
+    (h : ∀ p ∈ ps, PartyOKS g0 mp w T rest p) :
+    (∀ p ∈ ps, p.final.g.path = g0.path ++ (w :: rest.map (·.1)).map (·.cipher) ∧
+      wc p.final.g [] = wc (chainG mp g0 (w :: rest.map (·.1))) []) ∧
+    (∀ p ∈ ps, ∀ q ∈ ps, p.final.g.path = q.final.g.path ∧ wc p.final.g [] = wc q.final.g []) := by
+  have main : ∀ p ∈ ps, p.final.g.path = g0.path ++ (w :: rest.map (·.1)).map (·.cipher) ∧
+      wc p.final.g [] = wc (chainG mp g0 (w :: rest.map (·.1))) [] := by
+    intro p hp
+    have ok := h p hp
+    have hch : ChainEv p.c.id p.c.g.admins (p.c.g.path ++ [w.cipher]) rest := by
+      rw [ok.parent.admins, ok.parent.path]; exact ok.chain
+    have hd := chain_run_mixed p.nx (T ++ evs rest) p.c w T p.l rest p.ls ok.fork ok.below hmin
+      (by rw [ok.parent.path]; exact ok.first) ok.cover (fun _ h => h) hcross hch ok.unseen
+      (by rw [ok.parent.path]; exact ok.later)
+    obtain ⟨b, sw, hk⟩ := atFork_kind ok.fork w hmin.1
+    constructor
+    · show (run p.nx p.c (p.l ++ p.ls.flatten)).g.path = _
+      rw [hd.path, ok.parent.path]; simp
+    · show wc (run p.nx p.c (p.l ++ p.ls.flatten)).g [] = _
+      rw [hd.g, ok.maxPast]
+      simp only [List.map_cons, chainG_cons]
+      rw [← chainG_wc, ← chainG_wc, childOfG_congr mp _ _ w b sw hk ok.parent]
+  exact ⟨main, fun p hp q hq => ⟨by rw [(main p hp).1, (main q hq).1], by rw [(main p hp).2, (main q hq).2]⟩⟩
+
+/-- non-vacuity: the bystander and the committer of A, both offered the stale child hA of A during the
+    later levels, at different points -/
+def p1s : Party := { c := b2, l := [eA, eC, eA, eB], ls := [[hA, fA, fB, hA, fA], [gA, hA, gA]], nx := 0 }
+def p2s : Party := { c := k1, l := [eB, eA, eC, eA], ls := [[fB, fA, hA], [hA, gA]], nx := 0 }
+
+example : p1s.final.g.path = p2s.final.g.path ∧ wc p1s.final.g [] = wc p2s.final.g [] :=
+  (chain_converges_stale [p1s, p2s] b2.g 5 eB T1 later (by decide) (by decide)
+    (fun p hp => by
+      simp only [List.mem_cons, List.not_mem_nil, or_false] at hp
+      rcases hp with rfl | rfl
+      · exact ⟨b2_atFork, b2_below, by constructor <;> rfl, rfl, by decide, by decide, later_chain 2 (by decide), by decide, by decide⟩
+      · exact ⟨k1_atFork, k1_below, by constructor <;> decide, rfl, by decide, by decide, later_chain 1 (by decide), by decide, by decide⟩)).2
+    p1s (by simp) p2s (by simp)
+
+example : p1s.final.g.path = [2, 5, 6] ∧ p2s.final.g.path = [2, 5, 6] := by decide
 
 /-! ### 5b. a rollback over two epochs -/
 
